@@ -346,6 +346,8 @@ func probes() []probe {
 		{"", "SELECT * FROM empty.json", []string{"-o", "batch_table"}},
 		{"", "SELECT * FROM empty.csv", []string{"-o", "batch_table"}},
 	}
+	ps = append(ps, joinPredicateProbes()...)
+	ps = append(ps, lateCSVProbes()...)
 	return ps
 }
 
@@ -392,6 +394,84 @@ func stdinProbes() []stdinProbe {
 			stdinProbe{probe{"stdin-read-more-than-once", "SELECT * FROM " + v.table, []string{"--describe"}}, v.data},
 			stdinProbe{probe{"stdin-read-more-than-once", "SELECT o." + v.ocol + " AS id, (SELECT count(*) FROM " + v.table + " s) AS c FROM " + v.outer + " o", []string{"-o", "batch_table", "--optimize=false"}}, v.data},
 			stdinProbe{probe{"stdin-read-more-than-once", "SELECT * FROM " + v.table, nil}, []byte{}},
+		)
+	}
+	return ps
+}
+
+// joinPredicateProbes: comparison conjuncts in ON / WHERE of a join with every combination of
+// {left-only, right-only, mixed, constant} operand on either side, plain and wrapped in
+// arithmetic / a function, for inner, comma, LOOKUP and outer joins. The join optimizers split such
+// predicates into key pairs by the variables each operand uses.
+func joinPredicateProbes() []probe {
+	kinds := []struct {
+		name  string
+		exprs []string
+	}{
+		{"left", []string{"l.id", "l.g + 1", "abs(l.g)"}},
+		{"right", []string{"r.g", "r.id + 1", "abs(r.g)"}},
+		{"mixed", []string{"l.g + r.g", "r.id - l.g", "abs(l.g * r.g)"}},
+		{"const", []string{"1", "1 + 1", "abs(-2)"}},
+	}
+	forms := []string{
+		"SELECT l.id AS a, r.id AS b FROM t.csv l JOIN t.csv r ON %s",
+		"SELECT l.id AS a, r.id AS b FROM t.csv l, t.csv r WHERE %s",
+		"SELECT l.id AS a, r.id AS b FROM t.csv l JOIN t.csv r ON l.g = r.g AND %s",
+		"SELECT l.id AS a, r.id AS b FROM t.csv l LOOKUP JOIN t.csv r ON %s",
+		"SELECT l.id AS a, r.id AS b FROM t.csv l LEFT JOIN t.csv r ON %s",
+		"SELECT l.id AS a, r.id AS b FROM t.csv l OUTER JOIN t.csv r ON %s",
+		"SELECT l.id AS a, r.id AS b FROM t.csv l JOIN t.csv r ON l.g = r.g WHERE %s",
+	}
+	var ps []probe
+	n := 0
+	for fi, form := range forms {
+		ops := []string{"="}
+		if fi < 2 {
+			ops = []string{"=", "<", "!="}
+		}
+		for _, op := range ops {
+			for _, ka := range kinds {
+				for _, kb := range kinds {
+					// the wrapper variant rotates, so that every (kind, kind, operator, join form) is
+					// enumerated once and every wrapper appears with every kind
+					a := ka.exprs[n%len(ka.exprs)]
+					b := kb.exprs[(n/3+fi)%len(kb.exprs)]
+					n++
+					ps = append(ps, probe{"join-predicate-" + ka.name + "-" + op + "-" + kb.name, strings.Replace(form, "%s", a+" "+op+" "+b, 1), nil})
+				}
+			}
+		}
+	}
+	// different input types on the two sides, both table orders
+	for _, q := range []string{
+		"SELECT t.id, j.id FROM t.csv t JOIN j.json j ON j.id = float(t.g) + j.id",
+		"SELECT t.id, j.id FROM j.json j JOIN t.csv t ON float(t.g) = j.id + float(t.id)",
+		"SELECT t.id, j.id FROM t.csv t, j.json j WHERE j.id = float(t.g) * j.id AND float(t.g) = j.id",
+		"SELECT t.id, j.id FROM j.json j, t.csv t WHERE t.s = j.s + t.s",
+	} {
+		ps = append(ps, probe{"join-predicate-mixed-types", q, nil})
+	}
+	return ps
+}
+
+// lateCSVProbes: CSV / TSV files whose rows after the 100-row schema preview are short, long,
+// empty or hold a lone quote (fixtures lateCSVFiles), read as a whole, by their last / middle
+// column, counted, and filtered on the last column, with and without the optimizer.
+func lateCSVProbes() []probe {
+	var ps []probe
+	for _, f := range lateCSVFiles() {
+		for _, q := range []string{
+			"SELECT * FROM " + f.name,
+			"SELECT x.d AS d FROM " + f.name + " x",
+			"SELECT x.b AS b FROM " + f.name + " x",
+			"SELECT count(*) AS c FROM " + f.name + " x",
+			"SELECT x.a AS a FROM " + f.name + " x WHERE x.d > 0",
+		} {
+			ps = append(ps, probe{"csv-row-shape-after-preview", q, nil})
+		}
+		ps = append(ps,
+			probe{"csv-row-shape-after-preview", "SELECT * FROM " + f.name, []string{"-o", "json", "--optimize=false"}},
+			probe{"csv-row-shape-after-preview", "SELECT x.d AS d FROM " + f.name + " x", []string{"-o", "json", "--optimize=false"}},
 		)
 	}
 	return ps
